@@ -568,6 +568,65 @@ func runC17(x *X) {
 			x.Nontrivial(fmt.Sprint(d))
 		}
 	})
+	// the same operations on a registry that already holds k other names (whatever the registry keeps per name -
+	// a slice with spare capacity, buckets - is at a different fill level for every k)
+	crowd := []int{1, 2, 3, 4, 7, 9, 10, 11, 15, 27}
+	cdepth := x.Pick(3, 4)
+	x.Explore("sequential-crowded-registry", ExploreOpts{ShardDepth: 2, Bound: fmt.Sprintf("k in %v other names registered first, then all sequences of <=%d registry operations of the sequential menu, checked against the map model after each step", crowd, cdepth)}, func(c *Chooser) {
+		serial := nextSerial(x)
+		k := crowd[c.Choose(len(crowd))]
+		names := []string{"n" + serial + "-full", "m" + serial, "n" + serial}
+		var extras []string
+		for i := 0; i < k; i++ {
+			extras = append(extras, fmt.Sprintf("x%s-%02d", serial, i))
+		}
+		defer resetNames(append(append([]string{}, names...), extras...)...)
+		initial := prepareNames(names[0], names[1])
+		for _, e := range extras {
+			decoration.RegisterDecorationName(e, decorFor(3))
+		}
+		c.Logf("%d other names registered first", k)
+		var log []regEvent
+		clock := 0
+		var d []string
+		for i := 0; i < cdepth; i++ {
+			o := c.Choose(len(c17SeqMenu) + 1)
+			if o == 0 {
+				break
+			}
+			op := c17SeqMenu[o-1]
+			d = append(d, op.String())
+			c.Logf("%s", op)
+			c17Exec(op, names, 0, &clock, &log)
+			x.Transition(1)
+			x.Clause("C17.sequential_model")
+			if ok, why := c17Linearizable(log, names, initial); !ok {
+				tg := []string{"sequential", fmt.Sprintf("other_names_registered_first:%d", k)}
+				if op.kind == "render" || op.kind == "rendernested" {
+					tg = append(tg, "fails_closed")
+				}
+				x.Fail("C17.sequential_model", tg, "sequential history not explained by a map: %s; %d other names registered first; ops %v", why, k, d)
+				return
+			}
+			// every one of the other names is still listed exactly once and still resolves
+			x.Clause("C17.sequential_model")
+			l := decoration.RegisteredDecorationNames()
+			cnt := map[string]int{}
+			for _, n := range l {
+				cnt[n]++
+			}
+			for _, e := range extras {
+				if cnt[e] != 1 || decoration.Named(e) != decorFor(3) {
+					x.Fail("C17.sequential_model", []string{"sequential", fmt.Sprintf("other_names_registered_first:%d", k), "bystander_name_disturbed"}, "after %v the bystander name %q is listed %d times / resolves to its decoration: %v; listing %v", d, e, cnt[e], decoration.Named(e) == decorFor(3), l)
+					return
+				}
+			}
+		}
+		x.State(fmt.Sprint(k, d))
+		if len(d) > 0 {
+			x.Nontrivial(fmt.Sprint(k, d))
+		}
+	})
 	// one long-lived TextTable whose decoration is changed between renders: it must refuse to render
 	// exactly while its current decoration name is unknown
 	ldepth := x.Pick(5, 6)
@@ -804,6 +863,68 @@ func c16Body(f c16Format, id int, tmpl *tabular.Cell, out *[]string, yield func(
 	*out = append(*out, fmt.Sprintf("stamps on own cells: %v; template still: %v/%v", stamps, tmpl.GetProperty(c16StampKey), tmpl.GetProperty(c16Key("other"))))
 }
 
+// c16StrRenderers: the string-returning Render() of every format (the wrappers' own buffers, whatever they are taken
+// from), and for the text formats a render that is REFUSED first (unknown decoration name).
+type c16Str struct {
+	name string
+	mk   func() tabular.Table
+	str  func(t tabular.Table, id int) (string, error)
+	fail func(t tabular.Table) (string, error)
+}
+
+func c16StrFormats() []c16Str {
+	refused := func(t tabular.Table) (string, error) {
+		tt := texttable.Wrap(t)
+		tt.SetDecorationNamed("c16-no-such-decoration")
+		return tt.Render()
+	}
+	return []c16Str{
+		{"csv", func() tabular.Table { return csv.New() }, func(t tabular.Table, id int) (string, error) { return csv.Wrap(t).Render() }, nil},
+		{"json", func() tabular.Table { return tjson.New() }, func(t tabular.Table, id int) (string, error) { return tjson.Wrap(t).Render() }, nil},
+		{"markdown", func() tabular.Table { return markdown.New() }, func(t tabular.Table, id int) (string, error) { return markdown.Wrap(t).Render() }, nil},
+		{"html", func() tabular.Table { return thtml.New() }, func(t tabular.Table, id int) (string, error) {
+			ht := thtml.Wrap(t).SetRowClassGenerator(func(n int, ctx interface{}) template.HTMLAttr {
+				return template.HTMLAttr(fmt.Sprintf("t%d-r%d", id, n))
+			}, nil)
+			return ht.Render()
+		}, nil},
+		{"text(named utf8-light)", func() tabular.Table { return texttable.New() }, func(t tabular.Table, id int) (string, error) {
+			tt := texttable.Wrap(t)
+			if _, err := tt.SetDecorationNamed("utf8-light"); err != nil {
+				return "", err
+			}
+			return tt.Render()
+		}, refused},
+		{"text(package-level Render)", func() tabular.Table { return tabular.New() }, func(t tabular.Table, id int) (string, error) { return texttable.Render(t) }, refused},
+	}
+}
+
+// c16StrBody: build a small own table, have one render refused (text formats), then take the string result of two renders.
+func c16StrBody(f c16Str, id int, out *[]string, yield func(string)) {
+	tag := fmt.Sprintf("S%d", id)
+	yield("New")
+	t := f.mk()
+	yield("AddHeaders")
+	t.AddHeaders("k1", "k2")
+	yield("AddRowItems")
+	t.AddRowItems(tag+"-a\nline2", strings.Repeat("ｗ"+tag, 3+id))
+	t.AddRowItems("shared", 10*id)
+	var cblog []string
+	if err := t.RegisterPropertyCallback(t, tabular.CB_AT_RENDER_PRECELL, tabular.CB_ON_CELL, &c16CB{&cblog, tag}); err != nil {
+		*out = append(*out, "register error: "+err.Error())
+	}
+	if f.fail != nil {
+		yield("refused Render()")
+		s, err := f.fail(t)
+		*out = append(*out, fmt.Sprintf("refused render: error=%v text=%q", err != nil, s))
+	}
+	for r := 0; r < 2; r++ {
+		yield("Render()")
+		s, err := f.str(t, id)
+		*out = append(*out, fmt.Sprintf("render %d: err=%v\n%s", r+1, err, s))
+	}
+}
+
 func c16RegistryBody(serial string, out *[]string, yield func(string)) {
 	name := "c16-" + serial
 	yield("Register")
@@ -938,6 +1059,65 @@ func runC16(x *X) {
 			x.Outcome(desc)
 		})
 	}
+	// string results: Render() instead of RenderTo(own writer), one refused render first in the text threads
+	sformats := c16StrFormats()
+	salone := map[string][]string{}
+	for i, f := range sformats {
+		for id := 0; id < 2; id++ {
+			var out []string
+			fresh := false
+			if exeErr == nil {
+				if b, err := exec.Command(exe, "c16alone", fmt.Sprint(i), fmt.Sprint(id), "str").Output(); err == nil && json.Unmarshal(b, &out) == nil {
+					fresh = true
+				}
+			}
+			if !fresh {
+				x.Note("alone_reference_computed_in_process")
+				out = nil
+				f, id := f, id
+				vrt.Run([]func(){func() { c16StrBody(f, id, &out, func(string) {}) }}, func(vrt.PointInfo) int { return 0 }, false, 200000)
+			}
+			salone[fmt.Sprint(i, id)] = out
+			for _, o := range out {
+				if strings.HasPrefix(o, "render ") && !strings.Contains(strings.SplitN(o, "\n", 2)[0], "err=<nil>") {
+					panic("harness: the C16 string-result body for format " + f.name + " does not render: " + strings.SplitN(o, "\n", 2)[0])
+				}
+				if strings.HasPrefix(o, "refused render") && o != `refused render: error=true text=""` {
+					panic("harness: the refused render of format " + f.name + " was not refused: " + o)
+				}
+			}
+		}
+	}
+	sbound := x.Pick(2, 3)
+	x.Explore("2-renderers-string-results", ExploreOpts{ShardDepth: 5, Bound: fmt.Sprintf("2 threads (all ordered pairs of %d formats) each building a small own table and calling the string-returning Render() twice, the text threads after one refused Render() (unknown decoration name); every schedule with <=%d preemptions over callback/step/sync/access points", len(sformats), sbound)}, func(c *Chooser) {
+		fi := []int{c.Choose(len(sformats)), c.Choose(len(sformats))}
+		desc := sformats[fi[0]].name + " || " + sformats[fi[1]].name + " (string results)"
+		c.Logf("program %s", desc)
+		outs := make([][]string, 2)
+		bodies := []func(){
+			func() { c16StrBody(sformats[fi[0]], 0, &outs[0], vrt.Yield) },
+			func() { c16StrBody(sformats[fi[1]], 1, &outs[1], vrt.Yield) },
+		}
+		res := schedule(c, bodies, sbound)
+		tags := []string{"family:2-renderers-string-results"}
+		for _, k := range fi {
+			tags = appendUnique(tags, "format:"+sformats[k].name)
+		}
+		if !schCommon(x, c, "C16", res, tags, desc) {
+			return
+		}
+		x.Clause("C16.equal_alone")
+		for t := 0; t < 2; t++ {
+			want := salone[fmt.Sprint(fi[t], t)]
+			if strings.Join(outs[t], "\x00") != strings.Join(want, "\x00") {
+				x.Fail("C16.equal_alone", tags, "thread %d (%s) produced, under this schedule,\n%s\nbut alone it produces\n%s\nprogram %s", t, sformats[fi[t]].name, strings.Join(outs[t], "\n"), strings.Join(want, "\n"), desc)
+				return
+			}
+		}
+		x.State(desc)
+		x.Nontrivial(desc)
+		x.Outcome(desc)
+	})
 	run("2-renderers+registry", 2, true, x.Pick(1, 2))
 	run("2-renderers", 2, false, x.Pick(2, 3))
 	if x.Thorough() {
@@ -976,11 +1156,19 @@ func init() {
 	// c16alone <format index> <thread id>: the body of one C16 thread alone in this (fresh) process; prints its outputs as JSON
 	extraCommands["c16alone"] = func(args []string) {
 		var fi, id int
-		if len(args) != 2 {
+		if len(args) != 2 && len(args) != 3 {
 			os.Exit(2)
 		}
 		fmt.Sscan(args[0], &fi)
 		fmt.Sscan(args[1], &id)
+		if len(args) == 3 {
+			sf := c16StrFormats()
+			var out []string
+			vrt.Run([]func(){func() { c16StrBody(sf[fi], id, &out, func(string) {}) }}, func(vrt.PointInfo) int { return 0 }, false, 200000)
+			b, _ := json.Marshal(out)
+			os.Stdout.Write(b)
+			return
+		}
 		formats := c16Formats()
 		var out []string
 		tmpl := c16Template()
